@@ -11,9 +11,10 @@ TRUSTED_BASE = [
 
 A_HASH = "A-hash: hash_key (salted Blake2b / SipHash) is injective on the keys of a history (checked dynamically: distinct generated keys never collide in the runs)"
 A_COMPRESS = "A-compress: decompress(compress v) = v for lz4 / snappy (exercised by every round trip in the runs)"
-P2_GAP = ("physical layers below the logical pipeline: for plain hash columns the index pages + byte-level value tables (single-slot values and multipart "
-          "chains alike) refine P1's logical table (Pdb/Props/Refine.lean R1-R4, R3_composed_full); rc / preimage / btree / multitree columns and the WAL "
-          "byte format are tied to P1 by correspondence only")
+P2_GAP = ("physical layers below the logical pipeline: for hash columns of every kind (plain, preimage, ref-counted) the index pages + byte-level value "
+          "tables (single-slot values and multipart chains alike, stored counters with saturation) refine P1's logical table (Pdb/Props/Refine.lean "
+          "R1-R4, R3_composed_full; Pdb/Props/RefineRc.lean R5_rc_refines); btree / multitree columns and the WAL byte format are tied to P1 by "
+          "correspondence only")
 
 P1_RULE = ("histories generated from one SplitMix64 state: commits of 1..6 ops over 1..3 columns and a small key pool "
            "(repeated keys, removals, invalid ops ~3%), interleaved with process / flush / enactall / clean / reindex / "
@@ -40,7 +41,7 @@ PROPS = {
                        "an independent BTreeMap oracle."),
         "level_note": ("Trusted: Lean kernel; the P1 model abstracts storage below the log-record level (tied by correspondence only); "
                        "hash injectivity (A-hash); compression round trip (A-compress); harness generators."),
-        "lean": ["Pdb.Props.C01", "Pdb.Proofs.Order", "Pdb.Props.Refine"],
+        "lean": ["Pdb.Props.C01", "Pdb.Proofs.Order", "Pdb.Props.Refine", "Pdb.Props.RefineRc"],
         "harness": [{"cmd": "p1", "quick": 300, "thorough": 20000}],
         "rule": P1_RULE,
         "assumptions": [A_HASH, A_COMPRESS, P2_GAP],
@@ -105,8 +106,8 @@ PROPS = {
                        "set/reference/dereference histories on hash and btree rc columns with crashes and reopens."),
         "level_note": ("Trusted: Lean kernel; P1 abstraction; the preimage contract (value is a function of the key) is a hypothesis; "
                        "value iteration is compared on the implementation only (iter_column_while)."),
-        "lean": ["Pdb.Props.C07"],
-        "harness": [{"cmd": "p1", "quick": 250, "thorough": 15000}],
+        "lean": ["Pdb.Props.C07", "Pdb.Props.RefineRc"],
+        "harness": [{"cmd": "p1", "quick": 250, "thorough": 15000}, {"cmd": "r5", "quick": 60, "thorough": 600}],
         "rule": P1_RULE,
         "assumptions": [A_HASH, A_COMPRESS, P2_GAP, "preimage contract: every Set on a preimage / rc column carries valueOf(key)"],
     },
